@@ -55,7 +55,7 @@ int c_inside(int nprint, int npoints, double * points,
                         dist = fabs(p1y-p2y);
                         xinters = p1x;
                         if(dist > atol)
-                            xinters += (y-p1y)*(p2x-p1x)/(p2y-p1y);
+                            xinters += (y-p1y)/(p2y-p1y)*(p2x-p1x);
 
                         dist = fabs(p1x-p2x);
                         if(dist < atol || x <= xinters)
